@@ -362,9 +362,11 @@ func cleanupToken(pos int, in string, normalizeWord bool) string {
 			}
 
 			// Numbers should not end in a .  since that doesn't indicate a version
-			// number, but usually an end of a line.
+			// number, but usually an end of a line. They should not end in a - either:
+			// at the end of a line it would be taken for a hyphenated word when the
+			// cleaned text is tokenized again.
 			res := out.String()
-			for strings.HasSuffix(res, ".") {
+			for strings.HasSuffix(res, ".") || strings.HasSuffix(res, "-") {
 				res = res[0 : len(res)-1]
 			}
 			return res
